@@ -8,8 +8,9 @@ mkdir -p build gen replays evidence
 tools/mkcoqproject.sh
 python3 tools/gen_schema_table.py --check || python3 tools/gen_schema_table.py
 [ -f tools/gen_json_table.py ] && { python3 tools/gen_json_table.py --check || python3 tools/gen_json_table.py; }
-# -k: a file that does not compile must not stop the others; every check rebuilds (and judges) its own Props target
-( cd coq && timeout 3000 make -k -j16 ) > build/coq_build.log 2>&1 || { echo "WARNING: some Coq files did not build (see build/coq_build.log)"; grep -B2 -A6 "^Error" build/coq_build.log | head -40; }
+# -k: a file that does not compile must not stop the others; every check rebuilds (and judges) its own Props target;
+# no single file may take more than 15 minutes (a diverging proof search must not hold up the whole setup)
+( cd coq && timeout 3000 make -k -j16 COQC="timeout 900 coqc" ) > build/coq_build.log 2>&1 || { echo "WARNING: some Coq files did not build (see build/coq_build.log)"; grep -B2 -A6 "^Error" build/coq_build.log | head -40; }
 for d in oracle/*/; do id=$(basename "$d"); if [ -f "$d/extract.v" ]; then tools/build_oracle.sh "$id" || echo "WARNING: oracle $id did not build"; fi; done
 for t in tools/*/; do [ -f "$t/main.go" ] && ( cd "$t" && go build -o ../../build/$(basename "$t") . ); done
 echo setup ok
